@@ -38,8 +38,13 @@ def source(rng):
     lines.append('  let k = i - (i / %d).floor() * %d;' % (n_shapes + 1, n_shapes + 1))
     lines.append('  let o = mk(k);')
     lines.append('  let viaSite = (i / %d).floor() * %d == i;' % (use_mod, use_mod))
-    lines.append('  let r1 = viaSite ? call(o) : o.foo();')
-    lines.append('  let r2 = viaSite ? o.get() : read(o);')
+    if r.random() < 0.5:
+        # instances of these classes only ever pass through property sites
+        lines.append('  let r1 = "-";')
+        lines.append('  let r2 = "-";')
+    else:
+        lines.append('  let r1 = viaSite ? call(o) : o.foo();')
+        lines.append('  let r2 = viaSite ? o.get() : read(o);')
     lines.append('  scrub(nil, nil, nil, nil, nil, nil, nil, nil);')
     lines.append('  let r3 = viaSite ? rdA(o) : o.a;')
     lines.append('  let r4 = viaSite ? o.a : wrA(o, "w${i}");')
